@@ -641,8 +641,33 @@ class State(object):
                 sys_.append(Lin({a: -1}, d.lo))
         return fm_infeasible(sys_)
 
+    def _eq_lin_facts(self):
+        """Equalities between linear compound terms held in the equality store (e.g. `(n + -1) == k`, learnt from
+        `last = (i == n - 1)`) as linear facts; canon only rewrites the exact left-hand term."""
+        out = []
+        for t, r in list(self.eq.items()):
+            if t[0] not in ('add', 'sub', 'mul', 'neg') or r[0] in ('ptr', 'pset', 'fn'):
+                continue
+            try:
+                l = Lin({}, 0)
+                lt = lin_of(t)
+                l.k += lt.k
+                for a, c in lt.co.items():
+                    l = l.add(lin_of(self.canon(a)), c)
+                l = l.add(lin_of(self.canon(r)), -1)
+            except Exception:
+                continue
+            if not l.is_const() and len(l.co) <= 4:
+                out.append(l)
+        return out
+
     def _derived_facts(self, atoms):
         out = []
+        if self.eq:
+            for l in self._eq_lin_facts():
+                if any(a in atoms for a in l.co):
+                    out.append(l)
+                    out.append(l.scale(-1))
         for a in list(atoms):
             if a[0] in ('div', 'mod') and is_const(a[2]) and a[2][1] > 0 and self.dom(a[1]).lo >= 0:
                 c = a[2][1]
